@@ -288,7 +288,7 @@ impl MapLife {
         for _ in 0..nfiles {
             files.push(match rng.below(20) {
                 0 => FileSpec::Missing,
-                1 | 4 if big => FileSpec::Sparse(*rng.pick(&[64u64 << 20, (64 << 20) + 4104, 1 << 30, 1 << 30])),
+                1 | 4 if big => FileSpec::Sparse(*rng.pick(&[64u64 << 20, (64 << 20) + 4104, 1 << 30, 1 << 30, (5u64 << 30) + 4104])),
                 2 => FileSpec::Size(8 * rng.range(0, 5000)),
                 3 => FileSpec::Size(rng.range(1, 9000)),
                 _ => FileSpec::Size(*rng.pick(&sizes)),
@@ -321,6 +321,10 @@ impl MapLife {
 
     fn run_inner(&self, prop: &str, paths: &[PathBuf], stats: &mut Stats) -> Result<(), Violation> {
         let v = |clause: &str, site: &str, msg: String| Violation::new(prop, clause, site, msg);
+        // The address-space oracle needs /proc/self/maps; without it nothing can be judged.
+        if !std::fs::read_to_string("/proc/self/maps").map(|t| t.lines().count() > 3).unwrap_or(false) {
+            return Err(v("harness", "/proc/self/maps", "cannot read /proc/self/maps: the address space cannot be observed here".into()));
+        }
         // Create the files and the model of their content.
         let mut model: Vec<Option<Vec<u8>>> = Vec::new();
         let mut sparse_len: Vec<Option<u64>> = Vec::new();
@@ -436,6 +440,7 @@ impl MapLife {
                             slots.push(Some(l));
                             stats.probe_if(slots.iter().filter(|s| s.is_some()).count() >= 2, "several maps alive at once");
                             stats.probe_if(size == Some(0), "empty file mapped successfully");
+                            stats.probe_if(size.unwrap_or(0) > (4u64 << 30), "file larger than 4 GiB mapped");
                         },
                     }
                 },
